@@ -470,7 +470,7 @@ def run_case(case, col):
     pos = registry(spec)
     network = spec['network']
     try:
-        t = txgen.build(spec, private_in_inputs=True)
+        t = txgen.build(spec, private_in_inputs=True, route=case.get('route', 'add_input'))
         t.sign()
         raw = t.raw()
     except Exception as e:
@@ -525,4 +525,7 @@ def run_shard(spec, col):
         for o in s['outs']:
             if o['kind'] == 'nulldata':
                 o['value'] = 0
-        run_case({'spec': s, 'rseed': rnd.getrandbits(32)}, col)
+        case = {'spec': s, 'rseed': rnd.getrandbits(32)}
+        if rnd.random() < 0.3 and sum(i['value'] for i in s['ins']) > sum(o['value'] for o in s['outs']):
+            case['route'] = 'objects'     # Input / Output objects handed to the Transaction constructor
+        run_case(case, col)
